@@ -137,4 +137,23 @@ def match_f12(k, case, impl, model):
     # the KNOWN-FINDING line; nothing is suppressed by it.
     return False
 
+def cmp_scen(case, impl, model):
+    """scenario observations: ops ending in 'p' carry an acceptance predicate proved of every model
+    execution (here: the observation is a token-wise prefix of the predicted full sequence); all
+    other ops are compared by equality"""
+    op = case.split('\t', 1)[0]
+    if op == 'chanevp':
+        if impl == '-':
+            return True
+        it, mt = impl.split(' '), model.split(' ')
+        return len(it) <= len(mt) and mt[:len(it)] == it
+    return impl == model
+
+P['C10'] = dict(
+    bin='scen', compare=cmp_scen,
+    rule='real gomavlib.Node over 1..4 custom endpoints with scripted in-memory transports; per channel a history of valid frames (v1/v2, signed on keyed links), complete frames with a wrong checksum / signature / missing signature and junk without frame markers, fed in random chunks from concurrent feeders; a transport error ends a channel (close event) and the endpoint opens the next one with its own history; consumer fast / slow / bursty; 0..2 concurrent writers; GOMAXPROCS 1/2/16. Observed per channel: the ordered event sequence, compared for equality with the model prediction (open, one event per read result of the frame-reader model on the same bytes, close). Close-race scenarios (consumer absent while frames arrive, Close(), then ranging over Events()): the observation must be a prefix of the prediction. Non-trivial: at least one frame event predicted.',
+    assumptions=['scheduler perturbation (GOMAXPROCS, sleeps, Gosched) is search, not proof; the all-schedules claim is the LTS theorem', 'waiting is on predicted observables with a 20 s timeout'],
+    mismatch_meaning='the event sequence the application observed from a channel differs from the sequence every execution of the node model produces (open first, one event per input in order, close last): concrete input history',
+)
+
 KNOWN_MATCH = {'F12': match_f12}
